@@ -83,6 +83,15 @@ type dSl struct {
 	N  int
 }
 
+// pointers to pointers (the filter follows a pointer field twice)
+type dPP struct {
+	PS **string `class:"sensitive"`
+	PB **[]byte `class:"secret"`
+	PT **dLeaf
+	PP **string `class:"public"`
+	N  int
+}
+
 // Taggable shapes: the tags of the value under test are set per case
 var curTags []encrypt.PointerTag
 
@@ -336,7 +345,7 @@ func deepShapes(p *prng, n int, st *stats, oracle func(string, ...any)) {
 		kind := ""
 		curTags = nil
 		f.IgnoreTypes = nil
-		switch p.intn(26) {
+		switch p.intn(27) {
 		case 0:
 			l := mkLeaf(c, p)
 			payload, kind = &l, "ptr-struct"
@@ -430,6 +439,11 @@ func deepShapes(p *prng, n int, st *stats, oracle func(string, ...any)) {
 			payload, kind = &dSl{L: mixed(), LS: []interface{}{c.prot(), []byte(c.prot())}, LP: []interface{}{c.pub(), 3}, LU: mixed(),
 				SS: [][]string{{c.prot(), c.prot()}, nil, {}}, SP: [][]string{{c.pub()}},
 				M: map[string]interface{}{"tags": []interface{}{c.prot(), c.prot()}, "rows": []interface{}{[]interface{}{c.prot(), mkLeaf(c, p)}}}, N: 1}, "slices-of-interfaces"
+		case 26:
+			ps, pb, pp := c.prot(), []byte(c.prot()), c.pub()
+			l := mkLeaf(c, p)
+			psp, pbp, plp, ppp := &ps, &pb, &l, &pp
+			payload, kind = &dPP{PS: &psp, PB: &pbp, PT: &plp, PP: &ppp, N: 1}, "pointers-to-pointers"
 		case 25:
 			l := mkLeaf(c, p)
 			payload, kind = []interface{}{c.prot(), mkLeaf(c, p), &l, map[string]interface{}{"k": c.prot(), "l": []interface{}{c.prot()}}, nil}, "payload-slice-of-interfaces"
